@@ -28,6 +28,9 @@ def run(ctx):
     ctx.each(r17d, ctx, repo)
     ctx.each(r17e, ctx, repo)
     ctx.each(r17f, ctx, repo)
+    from . import shapes
+
+    ctx.each(shapes.copy_hook_rule, ctx, repo, "R17g")
 
 
 GENERATOR_CTORS = ("np.random.default_rng", "numpy.random.default_rng", "np.random.RandomState", "np.random.Generator", "default_rng", "random.Random")
